@@ -21,15 +21,6 @@ Definition cube_slice (c : cube) (rest : list item) : result cube :=
   | Err e => Err e
   end.
 
-Fixpoint mapr {A B} (f : A -> result B) (l : list A) : result (list B) :=
-  match l with
-  | [] => Ok []
-  | x :: xs => match f x with
-               | Err e => Err e
-               | Ok y => match mapr f xs with Ok ys => Ok (y :: ys) | Err e => Err e end
-               end
-  end.
-
 (* the repair: an Ellipsis anywhere in a tuple item is expanded against (1 + cube ndim) axes first *)
 Definition seq_expand (ndim : nat) (its : list item) : result (list item) :=
   let ne := length (filter is_ellipsis its) in
